@@ -1,0 +1,138 @@
+//go:build verif
+
+// Contracts for internal/maplike/skiplist (property C18). Comment-only file: see
+// /verif/DESIGN.md section 6/C18 and appendix A8.
+//
+// Heap model: nodes are heap objects, fingers and path are array-backed slices (each its
+// own allocation; skip rewrites every level of path before use). Ghost fields of a list:
+// live (the set of nodes in the list), dom/view (the abstract map) and nodeof (the node
+// holding a key). The invariant is first order and index free: keys themselves are the order.
+
+package skiplist
+
+//@ fileprops C18
+//@ smt slicemodel array
+
+//@ ghostfield tSkipList live map[*tSkipNode[K,V]]bool
+//@ ghostfield tSkipList dom map[K]bool
+//@ ghostfield tSkipList view map[K]V
+//@ ghostfield tSkipList nodeof map[K]*tSkipNode[K,V]
+
+//@ pred lt(list, a, b) = list.Ord.Compare(a, b) == LT
+//@ pred isnode(list, x) = x == list.head || live(list)[x]
+//@ pred below(list, x, k) = x == list.head || list.Ord.Compare(x.key, k) == LT
+
+// the comparison trait is a total order
+//@ pred totalord(o) = o != nil
+//@   | && (forall a K, b K :: o.Compare(a, b) == LT || o.Compare(a, b) == EQ || o.Compare(a, b) == GT)
+//@   | && (forall a K, b K :: (o.Compare(a, b) == EQ) == (a == b))
+//@   | && (forall a K, b K :: (o.Compare(a, b) == LT) == (o.Compare(b, a) == GT))
+//@   | && (forall a K, b K, c K :: o.Compare(a, b) == LT && o.Compare(b, c) == LT ==> o.Compare(a, c) == LT)
+//@ pred totalorder(list) = totalord(list.Ord)
+
+//@ pred shape(list) = list != nil && list.head != nil && !live(list)[list.head] && alloc(list.head) && list.levels >= 1 && len(list.path) == list.levels && len(list.head.fingers) == list.levels
+//@   | && (forall x *tSkipNode :: live(list)[x] ==> x != nil && x != list.head && alloc(x) && 1 <= len(x.fingers) && len(x.fingers) <= list.levels)
+// (2) every finger points to a live node of sufficient rank with a larger key
+//@ pred fingersok(list) = forall x *tSkipNode, l Int :: isnode(list, x) && 0 <= l && l < len(x.fingers) && x.fingers[l] != nil ==> live(list)[x.fingers[l]] && len(x.fingers[l].fingers) > l && (x == list.head || lt(list, x.key, x.fingers[l].key))
+// (3) no node of rank > l lies strictly between x and its level-l finger
+//@ pred nearest(list) = forall x *tSkipNode, z *tSkipNode, l Int :: isnode(list, x) && live(list)[z] && 0 <= l && l < len(x.fingers) && len(z.fingers) > l && (x == list.head || lt(list, x.key, z.key)) ==> x.fingers[l] != nil && (x.fingers[l] == z || lt(list, x.fingers[l].key, z.key))
+// the abstract map
+//@ pred viewok(list) = (forall x *tSkipNode :: live(list)[x] ==> dom(list)[x.key] && view(list)[x.key] == x.val && nodeof(list)[x.key] == x)
+//@   | && (forall k K :: dom(list)[k] ==> live(list)[nodeof(list)[k]] && nodeof(list)[k].key == k)
+
+//@ pred skinv(list) = totalorder(list) && shape(list) && fingersok(list) && nearest(list) && viewok(list)
+
+// per level: the node after which the key belongs
+//@ pred pathok(list, p, j, key) = isnode(list, p) && len(p.fingers) > j && below(list, p, key) && (p.fingers[j] == nil || !lt(list, p.fingers[j].key, key))
+
+// the table of level probabilities: for the arguments New passes (2^32, 1/e) the level count is 22
+// (floating point logarithms and powers are not reasoned about)
+//@ func probability
+//@   trusted
+//@   ensures result >= 1 && len(result1) == result + 1
+
+// the empty map over a total order
+//@ func New
+//@   opt overflow=off
+//@   requires totalord(compare)
+//@   modifies Alloc
+//@   gset live(asref(result, tSkipList)) = nomap()
+//@   gset dom(asref(result, tSkipList)) = nomap()
+//@   ensures result != nil && fresh(result) && asref(result, tSkipList).Ord == compare
+//@   ensures empty: forall k K :: !dom(asref(result, tSkipList))[k]
+//@   ensures inv: skinv(asref(result, tSkipList))
+
+//@ func (*tSkipList) search
+//@   opt slices=owned
+//@   opt overflow=off
+//@   requires skinv(self)
+//@   ensures result != nil ==> live(self)[result] && !lt(self, result.key, key)
+//@   ensures least_not_smaller: forall z *tSkipNode :: live(self)[z] && !lt(self, z.key, key) ==> result != nil && (result == z || lt(self, result.key, z.key))
+//@   loop 0 invariant 0 - 1 <= level && level < self.levels && isnode(self, node) && below(self, node, key) && len(node.fingers) > level && next == node.fingers
+//@   loop 0 invariant level < 0 ==> node.fingers[0] == nil || !lt(self, node.fingers[0].key, key)
+//@   loop 1 invariant 0 <= level && level < self.levels && isnode(self, node) && below(self, node, key) && len(node.fingers) > level && next == node.fingers
+
+//@ func (*tSkipList) skip
+//@   opt slices=owned
+//@   opt overflow=off
+//@   requires skinv(self)
+//@   ensures len(result1) == self.levels && result == result1[0].fingers[0]
+//@   ensures forall j Int :: 0 <= j && j < self.levels ==> pathok(self, result1[j], j, key)
+//@   loop 0 invariant 0 - 1 <= level && level < self.levels && isnode(self, node) && below(self, node, key) && len(node.fingers) > level && next == node.fingers && len(path) == self.levels
+//@   loop 0 invariant forall j Int :: level < j && j < self.levels ==> pathok(self, path[j], j, key)
+//@   loop 0 invariant level < 0 ==> node == path[0]
+//@   loop 1 invariant 0 <= level && level < self.levels && isnode(self, node) && below(self, node, key) && len(node.fingers) > level && next == node.fingers && len(path) == self.levels
+//@   loop 1 invariant forall j Int :: level < j && j < self.levels ==> pathok(self, path[j], j, key)
+
+// node heights are random: any rank in [1, levels] (floating point is not reasoned about)
+//@ func (*tSkipList) mkNode
+//@   trusted
+//@   modifies Alloc
+//@   ensures 1 <= result && result <= self.levels && fresh(result1) && result1.key == key && result1.val == val && len(result1.fingers) == result
+//@   ensures forall l Int :: 0 <= l && l < result ==> result1.fingers[l] == nil
+
+//@ func (*tSkipList) Get
+//@   requires skinv(self)
+//@   ensures like_a_map: result == ite(dom(self)[key], view(self)[key], zero(V))
+
+//@ func (*tSkipList) Put
+//@   opt slices=owned
+//@   opt overflow=off
+//@   requires skinv(self)
+//@   modifies anyfield(tSkipNode, val), anyfield(tSkipNode, fingers), self.length, live(self), dom(self), view(self), nodeof(self), Alloc
+//@   gset ret 0: view(self) = store(old(view(self)), key, val)
+//@   gset ret 1: live(self) = store(old(live(self)), node, true)
+//@   gset ret 1: dom(self) = store(old(dom(self)), key, true)
+//@   gset ret 1: view(self) = store(old(view(self)), key, val)
+//@   gset ret 1: nodeof(self) = store(old(nodeof(self)), key, node)
+//@   ensures result == self
+//@   ensures like_a_map_dom: dom(self) == store(old(dom(self)), key, true)
+//@   ensures like_a_map_view: view(self) == store(old(view(self)), key, val)
+//@   ensures inv_order: totalorder(self)
+//@   ensures inv_shape: shape(self)
+//@   ensures inv_fingers: fingersok(self)
+//@   ensures inv_nearest: nearest(self)
+//@   ensures inv_view: viewok(self)
+//@   loop 0 invariant 0 <= level && level <= rank && len(path) == self.levels
+//@   loop 0 invariant forall x *tSkipNode :: len(x.fingers) == len(old(x.fingers))
+//@   loop 0 invariant forall x *tSkipNode, l Int :: x != node && 0 <= l && l < len(x.fingers) ==> x.fingers[l] == ite(l < level && x == path[l], node, old(x.fingers)[l])
+//@   loop 0 invariant forall l Int :: 0 <= l && l < rank ==> node.fingers[l] == ite(l < level, old(path[l].fingers)[l], nil)
+
+//@ func (*tSkipList) Remove
+//@   opt slices=owned
+//@   opt overflow=off
+//@   requires skinv(self)
+//@   modifies anyfield(tSkipNode, fingers), self.length, live(self), dom(self)
+//@   gset ret 0: live(self) = store(old(live(self)), v, false)
+//@   gset ret 0: dom(self) = store(old(dom(self)), key, false)
+//@   ensures like_a_map_result: result == ite(old(dom(self))[key], old(view(self))[key], zero(V))
+//@   ensures like_a_map_dom: dom(self) == store(old(dom(self)), key, false)
+//@   ensures like_a_map_view: view(self) == old(view(self))
+//@   ensures inv_order: totalorder(self)
+//@   ensures inv_shape: shape(self)
+//@   ensures inv_fingers: fingersok(self)
+//@   ensures inv_nearest: nearest(self)
+//@   ensures inv_view: viewok(self)
+//@   loop 0 invariant 0 <= level && level <= rank && len(path) == self.levels
+//@   loop 0 invariant forall x *tSkipNode :: len(x.fingers) == len(old(x.fingers))
+//@   loop 0 invariant forall x *tSkipNode, l Int :: 0 <= l && l < len(x.fingers) ==> x.fingers[l] == ite(l < level && x == path[l] && old(x.fingers)[l] == v, ite(len(old(v.fingers)) > l, old(v.fingers)[l], nil), old(x.fingers)[l])
